@@ -49,6 +49,15 @@ def main():
     meta = {"seed_id": sid, "breaks_property": prop, "needs_to_manifest": needs, "source": "independent sub-agent given only the property text and a scratch worktree",
             "confirmed_at": time.strftime("%Y-%m-%dT%H:%M:%SZ", time.gmtime()), "ran": []}
     demo_tests = [f[:-3] for f in os.listdir(demo) if f.endswith(".rs") and os.path.exists(os.path.join(wt, "tests", f))]
+    # demonstrations of sibling mutations are parked for the duration of the run (one of them may hang under this mutation)
+    stash = os.path.join(wt, "_stash_other_demos")
+    os.makedirs(stash, exist_ok=True)
+    mine = {f for f in os.listdir(demo)}
+    rc, untracked = sh("git ls-files --others --exclude-standard tests", cwd=wt)
+    for rel in untracked.split():
+        f = os.path.basename(rel)
+        if rel == "tests/" + f and f.endswith(".rs") and f not in mine:      # top-level test binaries only; support dirs stay
+            shutil.move(os.path.join(wt, "tests", f), os.path.join(stash, f))
     sh("git checkout -- src", cwd=wt)
     for (fn, dest, modfile) in incrate:
         shutil.copy(os.path.join(demo, fn), os.path.join(wt, dest))
@@ -76,6 +85,9 @@ def main():
     for (fn, dest, modfile) in incrate:
         if os.path.exists(os.path.join(wt, dest)):
             os.remove(os.path.join(wt, dest))
+    for f in os.listdir(stash):
+        shutil.move(os.path.join(stash, f), os.path.join(wt, "tests", f))
+    os.rmdir(stash)
     # the fs_disk unit tests share one on-disk scratch directory and race with each other (3 are listed as flaky in the
     # pinned baseline; the others fail the same way on the unmodified tree when binaries run concurrently)
     flaky_seen = [f for f in failed_mut if "fs::fs_disk::" in f]
